@@ -295,6 +295,14 @@ func s1Values(quick bool) []any {
 	} else {
 		ls = strLists(alpha, 2, long)
 		ls = append(ls, []string{}) // the empty non-nil slice
+		// and every list of exactly three over the first six symbols (order / drop / merge effects)
+		for _, a := range alpha[:6] {
+			for _, b := range alpha[:6] {
+				for _, c := range alpha[:6] {
+					ls = append(ls, []string{a, b, c})
+				}
+			}
+		}
 	}
 	var out []any
 	for _, s := range alpha {
